@@ -210,5 +210,6 @@ pub fn subs() -> Vec<Box<dyn DynSub>> {
     vec![
         sub(Sub { name: "c15.series", source: Source::Gen(series_strategy, 192_000, 1_000_000), oracle: series_oracle, known: no_known, hang_is_violation: true }),
         sub(Sub { name: "c15.long_series", source: Source::Gen(long_series_strategy, 64, 640), oracle: series_oracle, known: no_known, hang_is_violation: true }),
+        crate::props::fuzzsub::fc15(),
     ]
 }
